@@ -576,7 +576,8 @@ func BFS[St any, Ev any, N Node[Ev]](r *Report, spec BFSSpec[St, Ev, N]) {
 		path []Ev
 	}
 	sampled := 0
-	for len(frontier) > 0 && (spec.MaxDepth <= 0 || depth < spec.MaxDepth) {
+	diverged := false // a state restored from a snapshot differs from the state reached by replaying its path
+	for len(frontier) > 0 && (spec.MaxDepth <= 0 || depth < spec.MaxDepth) && !diverged {
 		if r.Expired() {
 			ps.Exhaustive = false
 			ps.Caps = append(ps.Caps, fmt.Sprintf("deadline reached at depth %d with %d frontier states", depth, len(frontier)))
@@ -706,7 +707,7 @@ func BFS[St any, Ev any, N Node[Ev]](r *Report, spec BFSSpec[St, Ev, N]) {
 						}
 					}
 					if k2 != c.key {
-						r.HarnessError("part %s: clone and replay disagree on a state key", name)
+						diverged = true
 					}
 				}
 				next = append(next, c.node)
@@ -714,6 +715,28 @@ func BFS[St any, Ev any, N Node[Ev]](r *Report, spec BFSSpec[St, Ev, N]) {
 		}
 		frontier = next
 		depth++
+	}
+	if diverged {
+		// the snapshots do not carry all the state the real code keeps (state that the code under test holds outside
+		// the objects the harness copies): start again without snapshots, every state reached by replaying its whole
+		// path on a fresh instance — slower, and independent of what a snapshot captures
+		r.mu.Lock()
+		for sig, v := range r.viol {
+			if v.Part == name {
+				delete(r.viol, sig)
+				for i, s := range r.violOrd {
+					if s == sig {
+						r.violOrd = append(r.violOrd[:i], r.violOrd[i+1:]...)
+						break
+					}
+				}
+			}
+		}
+		r.mu.Unlock()
+		spec.Save = nil
+		spec.Opt.Bound += " (explored by path replay only: a snapshot-restored state differed from the replayed one)"
+		BFS(r, spec)
+		return
 	}
 	if len(frontier) > 0 && ps.Exhaustive && spec.MaxDepth > 0 {
 		ps.Bound += fmt.Sprintf(" (depth bound %d reached with %d unexpanded frontier states)", spec.MaxDepth, len(frontier))
